@@ -267,6 +267,38 @@ func (c *inlCtx) newBuilder(call *ast.CallExpr, f *Func) *builder {
 				}
 			}
 		}
+		if simple && !written[p.obj] && p.typ != nil && !types.Identical(p.typ, declT) && types.IsInterface(declT) && !types.IsInterface(p.typ) {
+			// an interface parameter that the helper only calls methods on: the concrete argument answers the same calls
+			onlyReceiver := true
+			var stack []ast.Node
+			ast.Inspect(f.Body, func(n ast.Node) bool {
+				if n == nil {
+					stack = stack[:len(stack)-1]
+					return true
+				}
+				stack = append(stack, n)
+				if id, ok := n.(*ast.Ident); ok && finfo.Uses[id] == types.Object(p.obj) {
+					ok2 := false
+					if len(stack) >= 3 {
+						if se, isSel := stack[len(stack)-2].(*ast.SelectorExpr); isSel && se.X == ast.Expr(id) {
+							if call, isCall := stack[len(stack)-3].(*ast.CallExpr); isCall && call.Fun == ast.Expr(se) {
+								ok2 = true
+							}
+						}
+					}
+					if !ok2 {
+						onlyReceiver = false
+					}
+				}
+				return true
+			})
+			if onlyReceiver {
+				if id, isId := unparen(p.arg).(*ast.Ident); isId && c.stable(id) {
+					p.subst = true
+					continue
+				}
+			}
+		}
 		if !simple || written[p.obj] || p.typ == nil || !types.Identical(p.typ, declT) {
 			continue
 		}
@@ -317,8 +349,8 @@ func (c *inlCtx) newBuilder(call *ast.CallExpr, f *Func) *builder {
 					stableArg = false
 				}
 			case *ast.Ident:
-				if v, ok := info.Uses[x].(*types.Var); ok && v.Parent() == c.pkg.Types.Scope() {
-					stableArg = false // package-level variable
+				if v, ok := info.Uses[x].(*types.Var); ok && v.Parent() == c.pkg.Types.Scope() && c.pkgVarAssigned(v) {
+					stableArg = false // a package-level variable that something assigns
 				}
 			}
 			return true
@@ -737,4 +769,52 @@ func (b *builder) bindings() []ast.Stmt {
 		out = append(out, &ast.DeclStmt{Decl: &ast.GenDecl{Tok: token.VAR, TokPos: b.call.Pos(), Specs: []ast.Spec{&ast.ValueSpec{Names: []*ast.Ident{ast.NewIdent(nm)}, Type: te, Values: []ast.Expr{p.arg}}}}})
 	}
 	return out
+}
+
+// pkgVarAssigned: the package-level variable is exported, or some statement of its package assigns it, increments it or
+// takes its address (its value can then change between the call and the use of the parameter).
+func (c *inlCtx) pkgVarAssigned(v *types.Var) bool {
+	if v.Exported() {
+		return true
+	}
+	if c.n.pkgVarW == nil {
+		c.n.pkgVarW = map[*types.Var]bool{}
+		for _, pkg := range c.n.w.Pkgs {
+			info := pkg.TypesInfo
+			mark := func(e ast.Expr) {
+				if id, ok := unparen(e).(*ast.Ident); ok {
+					if pv, ok := info.Uses[id].(*types.Var); ok && pv.Pkg() != nil && pv.Parent() == pv.Pkg().Scope() {
+						c.n.pkgVarW[pv] = true
+					}
+				}
+			}
+			for _, file := range pkg.Syntax {
+				ast.Inspect(file, func(n ast.Node) bool {
+					switch x := n.(type) {
+					case *ast.AssignStmt:
+						for _, l := range x.Lhs {
+							mark(l)
+						}
+					case *ast.IncDecStmt:
+						mark(x.X)
+					case *ast.UnaryExpr:
+						if x.Op == token.AND {
+							mark(x.X)
+						}
+					case *ast.RangeStmt:
+						if x.Tok == token.ASSIGN {
+							if x.Key != nil {
+								mark(x.Key)
+							}
+							if x.Value != nil {
+								mark(x.Value)
+							}
+						}
+					}
+					return true
+				})
+			}
+		}
+	}
+	return c.n.pkgVarW[v]
 }
